@@ -49,8 +49,10 @@ Definition model_patch_cmp (p q : str) : comparison :=
 
 Definition shapes_agree : bool :=
   forallb (fun e1 => forallb (fun e2 => cmp_eqb (model_patch_cmp (fst e1) (fst e2)) (number_cmp (patch_number (fst e1)) (patch_number (fst e2)))) shapes) shapes.
-Lemma shapes_agree_ok : shapes_agree = true.
-Proof. vm_compute. reflexivity. Qed.
+Definition shape_row (e1 : str * (N * (N * N))) : bool :=
+  forallb (fun e2 => cmp_eqb (model_patch_cmp (fst e1) (fst e2)) (number_cmp (patch_number (fst e1)) (patch_number (fst e2)))) shapes.
+Lemma shapes_agree_ok : forall e1, In e1 shapes -> shape_row e1 = true.
+Proof. apply forallb_forall. vm_compute. reflexivity. Qed.
 
 Lemma in_grammar_In p : in_grammar p = true -> exists e, In e shapes /\ fst e = p.
 Proof.
@@ -61,8 +63,8 @@ Theorem patch_cmp_reference p q : in_grammar p = true -> in_grammar q = true ->
   model_patch_cmp p q = number_cmp (patch_number p) (patch_number q).
 Proof.
   intros Hp Hq. destruct (in_grammar_In p Hp) as [e1 [I1 E1]]. destruct (in_grammar_In q Hq) as [e2 [I2 E2]].
-  pose proof shapes_agree_ok as A. unfold shapes_agree in A. rewrite forallb_forall in A. specialize (A e1 I1).
-  rewrite forallb_forall in A. specialize (A e2 I2). apply cmp_eqb_eq in A. rewrite E1, E2 in A. exact A.
+  pose proof (shapes_agree_ok e1 I1) as A. unfold shape_row in A.
+  pose proof (proj1 (forallb_forall _ _) A e2 I2) as A2. cbv beta in A2. apply cmp_eqb_eq in A2. rewrite E1, E2 in A2. exact A2.
 Qed.
 
 (* C03 for legacy openssl *)
